@@ -57,6 +57,8 @@ def gen_case(rng):
         q, drel, tag = regions.sample(rng, leaf, lo=-6, hi=0.5)
         obs.append(G.to_global(leaf, q)[0])
         dmin = min(dmin, drel)
+        if leaf["cls"] == "CylinderSegment":   # also the extensions of its faces (finding cylseg-near-coincidence-precision)
+            dmin = min(dmin, max(float(G.cylseg_coincidence_dist(leaf, np.asarray(q)[None])[0]), 1e-12))
     kind = str(rng.choice(["uniform", "axis", "pi", "near_id", "identity"], p=[0.5, 0.15, 0.15, 0.15, 0.05]))
     Rg = objs.rand_rot(rng, 1, kind)[0]
     tmag = float(rng.choice([0.0, 10 ** rng.uniform(-3, 3)]))
